@@ -6,7 +6,7 @@
    quantification over h (all interleavings of the keys' rows). No reap step (STATETTL). *)
 From Coq Require Import Permutation.
 From SV Require Import Model.GroupKey Model.Counting Model.NumCarrier Spec.GroupSpec Proofs.GroupKeyProofs Proofs.CountingProofs
-  Proofs.NumCarrierProofs.
+  Proofs.NumCarrierProofs Model.CountingLag Proofs.CountingLagProofs.
 
 (* the i-th batch (i = 0, 1, ..) delivered for the key tuple t is exactly rows i*N+1 .. (i+1)*N of
    t's subsequence, in order, and there is an i-th batch only if t has (i+1)*N rows *)
@@ -147,3 +147,74 @@ Example C09_example :
   map (fun kb => map krid (snd kb))
       (cw_run 2 [mkKRow 1 a; mkKRow 2 b; mkKRow 3 a; mkKRow 4 a; mkKRow 5 b]%Z) = [[1; 3]; [2; 5]]%Z.
 Proof. reflexivity. Qed.
+
+(* ---- the consumer of the window's output channel (Model/CountingLag.v: sendResult's channel of [cap]
+   slots with its drop-oldest policy, and the goroutine of stream/processor_data.go that receives ONE batch
+   per step and aggregates it on its own). A schedule is any list of steps [LAdd r] (the window goroutine
+   processes a row) and [LTake] (the consumer receives the next waiting batch): "all schedules of the ingest
+   and window goroutines" on the far side of the window, a consumer that lags arbitrarily included. -------- *)
+
+(* for every schedule and capacity: the batches received, then the batches still waiting, are the window's
+   batch sequence (cw_steps on the Add sequence) with WHOLE batches removed and the order kept -- waiting
+   batches are never merged, cut or reordered; every cut batch is received, waiting, evicted by the
+   drop-oldest policy (which the code does not count: a ghost counter) or counted in droppedCount;
+   sentCount is the code's: it includes the evicted ones *)
+Theorem C09_lag_never_merges : forall key n cap sched,
+  let s := lag_run key n cap sched in
+  let B := snd (cw_steps key n [] (lag_adds sched)) in
+  sublist (lg_taken s ++ lg_queue s) B
+  /\ length (lg_taken s) + length (lg_queue s) + lg_evicted s + lg_dropped s = length B
+  /\ lg_sent s = length (lg_taken s) + length (lg_queue s) + lg_evicted s
+  /\ length (lg_queue s) <= cap.
+Proof. exact lag_never_merges. Qed.
+Print Assumptions C09_lag_never_merges.
+
+(* as long as the overflow policy removed nothing, the consumer's speed has no influence: received ++ waiting
+   is exactly the batch sequence of the theorems above, for every schedule *)
+Theorem C09_lag_exact_without_overflow : forall key n cap sched,
+  let s := lag_run key n cap sched in
+  lg_evicted s = 0 -> lg_dropped s = 0 ->
+  lg_taken s ++ lg_queue s = snd (cw_steps key n [] (lag_adds sched)).
+Proof. exact lag_exact_without_overflow. Qed.
+Print Assumptions C09_lag_exact_without_overflow.
+
+(* and nothing is ever removed when the channel can hold the batches of the run *)
+Theorem C09_lag_exact_within_capacity : forall key n cap sched,
+  let s := lag_run key n cap sched in
+  length (snd (cw_steps key n [] (lag_adds sched))) <= cap ->
+  lg_evicted s = 0 /\ lg_dropped s = 0
+  /\ lg_taken s ++ lg_queue s = snd (cw_steps key n [] (lag_adds sched)).
+Proof. exact lag_exact_within_capacity. Qed.
+Print Assumptions C09_lag_exact_within_capacity.
+
+(* even when the channel overflows: per key tuple, what is received / waiting are N-blocks
+   (i-1)N+1..iN of the tuple's rows, in increasing order (the blocks of the checkers chk_C09 / chk_C09_lossy) *)
+Theorem C09_lag_blocks_per_key : forall n cap sch sched t, 1 <= n ->
+  Forall (fun r => conforms sch (ktuple_of r)) (lag_adds sched) -> conforms sch t ->
+  let s := lag_run cnt_key n cap sched in
+  sublist (map (map krid) (kbatches_of (tuple_key s_global t) (lg_taken s ++ lg_queue s)))
+          (let ids := map krid (krows_of t (lag_adds sched)) in chunks (length ids) n ids).
+Proof. exact lag_blocks_per_key. Qed.
+Print Assumptions C09_lag_blocks_per_key.
+
+(* the code as it is: a consumer that lags by more batches than the channel holds loses the oldest waiting
+   batches and NO counter tells (droppedCount stays 0, sentCount counts the evicted batches as sent): N = 2, a
+   channel of 2 slots, one key, the consumer held on batch [1;2] while rows 3..10 arrive -- the second result
+   delivered for the key is rows 7..8, not rows 3..4 (known finding F57) *)
+Theorem C09_lag_eviction_uncounted_refuted :
+  let s := lag_run cnt_key 2 2 lag_witness in
+  lg_queue s = [] /\ lg_dropped s = 0 /\ lg_evicted s = 2 /\ lg_sent s = 5
+  /\ map (fun b => map krid (snd b)) (lg_taken s) = [[1; 2]; [7; 8]; [9; 10]]%Z
+  /\ lg_taken s <> snd (cw_steps cnt_key 2 [] (lag_adds lag_witness)).
+Proof. exact lag_eviction_uncounted. Qed.
+Print Assumptions C09_lag_eviction_uncounted_refuted.
+
+(* non-vacuity: N = 2, a channel of 2 slots, one key; the consumer receives batch [1;2] and is held while rows
+   3..10 arrive (batches [3;4] [5;6] [7;8] [9;10]: the first two are evicted), then drains *)
+Example C09_lag_example :
+  let a := [Some (KStr [97%N])] in
+  let row i := mkKRow i a in
+  let s := lag_run cnt_key 2 2 (lag_episode [row 1; row 2] (map row [3; 4; 5; 6; 7; 8; 9; 10]) 2)%Z in
+  map (fun b => map krid (snd b)) (lg_taken s) = [[1; 2]; [7; 8]; [9; 10]]%Z
+  /\ lg_queue s = [] /\ lg_sent s = 5 /\ lg_dropped s = 0 /\ lg_evicted s = 2.
+Proof. repeat split; reflexivity. Qed.
